@@ -47,7 +47,14 @@ def _classify(s: ast.stmt, m: str) -> Optional[str]:
 def r11_2(repo: Repo) -> RuleResult:
     rr = RuleResult("R11.2", "normalise(columns, l1) -> threshold(< epsilon -> 0) -> eliminate_zeros, before the EM loop and after every iteration", floor=2)
     f = repo.func(BASE_FILE, "BaseCooccurrenceVectorizer._build_token_cooccurrence_matrix")
-    m = "cooccurrence_matrix"
+    # the matrix is the object the function returns (possibly converted)
+    ret_names = []
+    for n in walk_no_nested(f.node):
+        if isinstance(n, ast.Return) and n.value is not None:
+            ret_names += [x.id for x in ast.walk(n.value) if isinstance(x, ast.Name)]
+    if not ret_names:
+        raise AnalysisError("R11.2: the matrix returned by _build_token_cooccurrence_matrix is not a local name")
+    m = ret_names[0]
     pre = [n for n in f.node.body if isinstance(n, ast.If) and "self.n_iter" in norm(n.test) and "self.epsilon" in norm(n.test)]
     loops = [n for n in f.node.body if isinstance(n, ast.For) and "self.n_iter" in norm(n.iter)]
     if len(loops) != 1:
@@ -159,9 +166,12 @@ def r11_3(repo: Repo) -> RuleResult:
             raise AnalysisError("R11.3: windows/kernels construction not recognised in %s" % b.key)
         if not all("mix_weights[" in k for k in kb | ke):
             problems.append("a kernel is not multiplied by its mix weight")
-        sd = single_defs(b)
-        row_b = norm(sd["row"]) if "row" in sd else None
-        row_e = norm(bound["target_gram_ind"])
+        # the row id is the first element of the tuple handed to coo_append
+        row_b = None
+        for c in repo.calls_in(b):
+            if app in repo.resolve_call(b, c) and len(c.args) >= 2 and isinstance(c.args[1], ast.Tuple):
+                row_b = norm(expand_locals(c.args[1].elts[0], b, 3))
+        row_e = norm(expand_locals(bound["target_gram_ind"], e, 3))
         if row_b != row_e:
             problems.append("row id differs: build `%s` vs EM `%s`" % (row_b, row_e))
         # the EM kernel must hand over the very windows/kernels it built
